@@ -76,6 +76,11 @@ def kinds():
         lambda i: M.ResultRequestUploadIqProtocolEntity(i, "https://mmg.whatsapp.net/d/f/2.enc", None, 0, True).toProtocolTreeNode())
     add("media-upload-resume", "YowMediaProtocolLayer", lambda: M.RequestUploadIqProtocolEntity("document", b64Hash="aGFzaDM=", size=4096),
         lambda i: M.ResultRequestUploadIqProtocolEntity(i, "https://mmg.whatsapp.net/u/3", "10.0.0.3", 1024, False).toProtocolTreeNode())
+    # the remaining requests of the profiles layer
+    add("statuses-get", "YowProfilesProtocolLayer", lambda: PR.GetStatusesIqProtocolEntity([JID, "4912346@s.whatsapp.net"]),
+        lambda i: PR.ResultStatusesIqProtocolEntity(i, "s.whatsapp.net", {JID: (b"at work", "1330555420")}).toProtocolTreeNode())
+    add("privacy-set", "YowProfilesProtocolLayer", lambda: PR.SetPrivacyIqProtocolEntity("contacts", ["last", "status"]),
+        lambda i: PR.ResultPrivacyIqProtocolEntity({"last": "contacts", "status": "contacts"}).toProtocolTreeNode())
     return K
 
 
